@@ -244,6 +244,13 @@ def run(tier, v):
             smeta.append({"crate": crate, "queue": qs})
             slines.append({"id": len(slines), "crate": crate, "workers": 3, "queue": qs, "batch": 4, "timeout_ms": 5, "matcher": False, "perturb": 0, "record": False,
                            "rounds": 1500 if tier == "thorough" else 400, "dispatchers": [base_frames[d * 6:(d + 1) * 6] for d in range(8)]})
+    # the consumer of the results goes away while packets are still being dispatched (its receiver is dropped after the first packets):
+    # the workers leave when they find the channel closed; every packet refused from then on is reported dropped AND counted
+    for crate in ("tcp", "http", "tls"):
+        for nw_ in (1, 2, 4):
+            smeta.append({"crate": crate, "queue": 64, "consumer_gone_after": 4, "workers": nw_})
+            slines.append({"id": len(slines), "crate": crate, "workers": nw_, "queue": 64, "batch": 2, "timeout_ms": 5, "matcher": False, "perturb": 0, "rxdrop": 4, "gap_us": 300,
+                           "dispatchers": [base_frames * 3]})
     sreq = os.path.join(wd, "stress.req")
     vlib.write_ndjson(sreq, slines)
     sout = os.path.join(wd, "stress.out")
@@ -261,11 +268,11 @@ def run(tier, v):
             nq = sum(1 for oc in o["outcomes"] for x in oc if x == "queued")
             nd = sum(1 for oc in o["outcomes"] for x in oc if x != "queued")
             n_stress += nq + nd
-            f.write(json.dumps({"crate": m_["crate"], "queue": m_["queue"], "nq": nq, "nd": nd, "unroutable": 0, "taken": sum(1 for e in o["events"] if e["kind"] == 0),
+            f.write(json.dumps({"crate": m_["crate"], "queue": m_["queue"], "nq": nq, "nd": nd, "unroutable": 0, "taken": sum(1 for e in o.get("events", []) if e["kind"] == 0), "gone": "rxdrop" in o,
                                 "dispatched": o["stats"]["dispatched"], "dropped": o["stats"]["dropped"], "worker_dropped": sum(w["dropped"] for w in o["stats"]["workers"])}) + "\n")
     r4 = vlib.tlc("TV_C18b", pid=PID, workers=1, env={"TRACE": strace}, timeout=600, coverage=False)
     for b in r4.lines.get("BAD", []):
-        v.violation({"part": "accounting under load", "crate": b["crate"], "queue_size": b["queue"], "dispatch_calls_that_returned_queued": b["nq"], "returned_dropped": b["nd"], "packets_taken_by_workers": b["taken"],
+        v.violation({"part": "accounting under load" if not b["gone"] else "accounting when the consumer of the results has gone away (receiver dropped after 4 packets)", "crate": b["crate"], "queue_size": b["queue"], "dispatch_calls_that_returned_queued": b["nq"], "returned_dropped": b["nd"], "packets_taken_by_workers": b["taken"],
                      "stats_total_dispatched": b["dispatched"], "stats_total_dropped": b["dropped"], "sum_of_per_worker_dropped": b["worker_dropped"]})
     r3 = vlib.tlc("TV_Pool", pid=PID, workers=1, dfs=True, env={"TRACE": ptrace}, timeout=1800, coverage=False)
     if tier == "thorough":
